@@ -206,16 +206,16 @@ def runMode (args : List Sexp) : Option String := do
     the answer of every `q` (instance numbers, sorted) and the final init count. -/
 def runReg (args : List Sexp) : Option String := do
   let id ← (← args.head?).atom?
+  -- `(n -)` a root, `(n p)` single inheritance, `(n p q)` multiple inheritance
   let classes ← (← field? "classes" args).mapM fun c => match c with
-    | .list [n, b] => do
-        let b ← b.atom?
-        pure ((← n.nat?), b.toNat?)
+    | .list (n :: ps) => do
+        pure ((← n.nat?), ps.filterMap fun b => b.atom?.bind String.toNat?)
     | _ => none
-  let parent : Nat → Option Nat := fun c => (classes.lookup c).join
+  let parents : Nat → List Nat := fun c => (classes.lookup c).getD []
   let sub : Nat → Nat → Bool := fun c t =>
     let rec go (c : Nat) : Nat → Bool
       | 0 => c == t
-      | f + 1 => c == t || (match parent c with | some p => go p f | none => false)
+      | f + 1 => c == t || (parents c).any fun p => go p f
     go c classes.length
   let ops ← field? "ops" args
   let mut s : Registry.RState := {}
